@@ -39,6 +39,13 @@ def role_atoms(list_role, suffix):
 
 def list_role_of(node):
     """self.list_of_points -> 'points', self.list_of_stationary_points -> 'stationary', self.T.list_of_points -> 'T.points'."""
+    # a shallow copy holds the same samples (the same tuple objects) in the same order
+    if isinstance(node, ast.Call) and isinstance(node.func, ast.Name) and node.func.id in ("list", "tuple") and len(node.args) == 1 and not node.keywords:
+        return list_role_of(node.args[0])
+    if isinstance(node, ast.Call) and isinstance(node.func, ast.Attribute) and node.func.attr == "copy" and not node.args and not node.keywords:
+        return list_role_of(node.func.value)
+    if isinstance(node, ast.Subscript) and isinstance(node.slice, ast.Slice) and node.slice.lower is None and node.slice.upper is None and node.slice.step is None:
+        return list_role_of(node.value)
     d = dotted(node)
     if d == "self.list_of_points":
         return "points"
@@ -1150,6 +1157,17 @@ def _generator_call(repo, cls, fn, call, ctx, res, gens, where):
     cbfn = None
     if isinstance(cb, ast.Attribute) and dotted(cb.value) == "self":
         cbfn = cls.find_method(cb.attr)
+    elif isinstance(cb, ast.Lambda) and not (cb.args.vararg or cb.args.kwarg or cb.args.kwonlyargs or cb.args.defaults):
+        # a condition written in place: the function it denotes (free names -- `self`, class parameters -- are those of the hook)
+        cbfn = ast.FunctionDef(name="<lambda>", args=cb.args, body=[ast.Return(value=cb.body, lineno=cb.lineno, col_offset=0)],
+                               decorator_list=[ast.Name(id="staticmethod", ctx=ast.Load())], lineno=cb.lineno, col_offset=0)
+        cbfn._cls, cbfn._module = cls, fn._module
+    elif isinstance(cb, ast.Name):
+        local = [n0 for n0 in fn.body if isinstance(n0, ast.FunctionDef) and n0.name == cb.id]
+        if len(local) == 1 and not local[0].decorator_list:
+            cbfn = clone(local[0])
+            cbfn.decorator_list = [ast.Name(id="staticmethod", ctx=ast.Load())]
+            cbfn._cls, cbfn._module = cls, fn._module
     if cbfn is None:
         raise AnalysisError("%s: callback %s of %s not resolved (%s)" % (cls.name, src(cb) if cb is not None else None, name, where))
     em = Emission(kind="scalar", family=cls.name, via="two_lists" if g.arity == 2 else "one_list", name=cname,
